@@ -93,9 +93,12 @@ class IdentityEliminationPass(ir.passes.InPlacePass):
 
         output_is_graph_output = output_value.is_graph_output()
 
-        # Case 3: Both node output is graph output and node input is graph input or initializer - keep the node
+        # Case 3: Both node output is graph output and node input is graph input, initializer or
+        # another graph output (two outputs need two values with names of their own) - keep the node
         if output_is_graph_output and (
-            input_value.is_graph_input() or input_value.is_initializer()
+            input_value.is_graph_input()
+            or input_value.is_initializer()
+            or input_value.is_graph_output()
         ):
             return False
 
